@@ -58,9 +58,41 @@ func (s AtomSet) without(as ...Atom) AtomSet {
 	}
 	c := s.clone()
 	for _, a := range as {
+		if strings.HasPrefix(a, "~") {
+			loc := a[1:]
+			for x := range c.m {
+				if mentionsLoc(x, loc) {
+					delete(c.m, x)
+				}
+			}
+			continue
+		}
 		delete(c.m, a)
 	}
 	return c
+}
+
+// mentionsLoc: atom a has loc as one of its ':'- or '=>'-separated components.
+func mentionsLoc(a, loc string) bool {
+	for _, part := range strings.Split(a, "=>") {
+		for _, c := range strings.Split(part, ":") {
+			if c == loc {
+				return true
+			}
+		}
+	}
+	return false
+}
+
+// dynComplement: v:nn:<x> and v:nil:<x> are mutually exclusive and exhaustive.
+func dynComplement(a Atom) (Atom, bool) {
+	switch {
+	case strings.HasPrefix(a, "v:nn:"):
+		return "v:nil:" + a[len("v:nn:"):], true
+	case strings.HasPrefix(a, "v:nil:"):
+		return "v:nn:" + a[len("v:nil:"):], true
+	}
+	return "", false
 }
 func (s AtomSet) union(o AtomSet) AtomSet {
 	if s.top || o.top {
@@ -202,6 +234,10 @@ type AtomDef struct {
 	// EdgeDyn returns dynamically named, function-local atoms (prefix "v:")
 	// established on this edge, e.g. bounds facts about a particular SSA value.
 	EdgeDyn func(m *Matcher, p Pred, holds bool) []Atom
+	// AnyDyn returns atoms generated and removed by a non-call instruction
+	// (e.g. a store that overwrites a location facts were keyed by). A kill
+	// entry "~<loc>" removes every atom that mentions location <loc>.
+	AnyDyn func(m *Matcher, in ssa.Instruction) (gen, kill []Atom)
 }
 
 // Derivation: Head holds wherever all of Body hold.
@@ -214,6 +250,9 @@ type Derivation struct {
 type RuleSet struct {
 	Atoms  []AtomDef
 	Derive []Derivation
+	// DynComplement enables the complement treatment for the dynamic pair
+	// v:nn:<x> / v:nil:<x>.
+	DynComplement bool
 	// Complement lists pairs of mutually exclusive, exhaustive atoms about the
 	// same value (e.g. a flag being true / false). At a join of a state holding
 	// A with a state holding B the analysis keeps "A=>X" for facts X known only
@@ -326,6 +365,11 @@ func (f *Flow) prepare(fn *ssa.Function) {
 					if ad.ExecAny != nil && ad.ExecAny(m, in) {
 						f.exec[in] = append(f.exec[in], ad.Name)
 					}
+					if ad.AnyDyn != nil {
+						g, k := ad.AnyDyn(m, in)
+						f.exec[in] = append(f.exec[in], g...)
+						f.kill[in] = append(f.kill[in], k...)
+					}
 				}
 			}
 		}
@@ -405,17 +449,30 @@ func isErrorType(t types.Type) bool {
 }
 
 func (f *Flow) close(s AtomSet) AtomSet {
-	if s.top || (len(f.RS.Derive) == 0 && len(f.RS.Complement) == 0) {
+	if s.top || (len(f.RS.Derive) == 0 && len(f.RS.Complement) == 0 && !f.RS.DynComplement) {
 		return s
 	}
 	changed := true
 	for changed {
 		changed = false
-		if len(f.RS.Complement) > 0 {
+		if len(f.RS.Complement) > 0 || f.RS.DynComplement {
 			for a := range s.m {
-				if i := strings.Index(a, "=>"); i > 0 && s.m[a[:i]] && !s.m[a[i+2:]] {
+				i := strings.Index(a, "=>")
+				if i <= 0 {
+					continue
+				}
+				if s.m[a[:i]] && !s.m[a[i+2:]] {
 					s = s.with(a[i+2:])
 					changed = true
+				}
+				// contraposition: A=>X together with not-X gives not-A
+				if f.RS.DynComplement {
+					if nx, ok := dynComplement(a[i+2:]); ok && s.m[nx] {
+						if na, ok := dynComplement(a[:i]); ok && !s.m[na] {
+							s = s.with(na)
+							changed = true
+						}
+					}
 				}
 			}
 		}
@@ -443,8 +500,26 @@ func (f *Flow) close(s AtomSet) AtomSet {
 // for complementary atoms.
 func (f *Flow) meet(a, b AtomSet) AtomSet {
 	r := a.meet(b)
-	if a.top || b.top || len(f.RS.Complement) == 0 {
+	if a.top || b.top || (len(f.RS.Complement) == 0 && !f.RS.DynComplement) {
 		return r
+	}
+	if f.RS.DynComplement {
+		for x := range a.m {
+			cx, ok := dynComplement(x)
+			if !ok || !b.m[cx] {
+				continue
+			}
+			for y := range a.m {
+				if !b.m[y] && !strings.Contains(y, "=>") && !strings.HasPrefix(y, "nn:") && y != x {
+					r = r.with(x + "=>" + y)
+				}
+			}
+			for y := range b.m {
+				if !a.m[y] && !strings.Contains(y, "=>") && !strings.HasPrefix(y, "nn:") && y != cx {
+					r = r.with(cx + "=>" + y)
+				}
+			}
+		}
 	}
 	for _, cp := range f.RS.Complement {
 		for _, pr := range [][2]Atom{{cp[0], cp[1]}, {cp[1], cp[0]}} {
@@ -531,11 +606,11 @@ func (f *Flow) applySums(s AtomSet, refs []sumRef) (AtomSet, bool) {
 func (f *Flow) blockOut(b *ssa.BasicBlock, in AtomSet) AtomSet {
 	s := in
 	for _, ins := range b.Instrs {
-		if as := f.exec[ins]; len(as) > 0 {
-			s = s.with(as...)
-		}
 		if ks := f.kill[ins]; len(ks) > 0 {
 			s = s.without(ks...)
+		}
+		if as := f.exec[ins]; len(as) > 0 {
+			s = s.with(as...)
 		}
 	}
 	return f.close(s)
@@ -552,11 +627,11 @@ func (f *Flow) StateAt(ins ssa.Instruction) AtomSet {
 		if x == ins {
 			break
 		}
-		if as := f.exec[x]; len(as) > 0 {
-			s = s.with(as...)
-		}
 		if ks := f.kill[x]; len(ks) > 0 {
 			s = s.without(ks...)
+		}
+		if as := f.exec[x]; len(as) > 0 {
+			s = s.with(as...)
 		}
 	}
 	return f.close(s)
